@@ -124,6 +124,7 @@ def st_case(draw, tier):
     # does): with probability 1/3 the grid is built at another scale and rescaled to T0
     rescale_from = draw(st.sampled_from([None, None, 0.4, 2.5, 10.0]))
     return {"kind": "moments", "gk": gk, "M": M, "N": N, "T0": T0, "rescale_from": rescale_from,
+            "recycle_bg": draw(st.sampled_from([False, False, True])),
             "basisM": draw(st.sampled_from(R.BASES)), "basisN": draw(st.sampled_from(R.BASES)),
             "particles": parts, "field": field, "family": fam, "qz": qz, "qp": qp, "amp": amp, "pp0": pp0,
             "g_z": g_z, "g_p": g_p, "g_amp": g_amp, "ab": ab, "vmid": float(vmid),
@@ -203,6 +204,15 @@ def build_solver(case):
     solver = BoltzmannSolver(grid, case["basisM"], case["basisN"], "Spectral")
     solver.updateParticleList(particles)
     solver.setBackground(bg)
+    if case.get("recycle_bg"):
+        # call history: the caller re-uses its background object / buffers after handing it over (the moments are
+        # those of the background that was set, not of whatever the caller writes into its own arrays later)
+        fields = WallGo.Fields(np.array(fields, dtype=float))
+        phi = np.array(phi, dtype=float)
+        np.asarray(bg.fieldProfiles)[...] = 2.5 * T0
+        np.asarray(bg.temperatureProfile)[...] = 1.7 * T0
+        np.asarray(bg.velocityProfile)[...] = 0.3
+        bg.velocityMid = 0.2
     coll = CollisionArray(grid, case["basisN"], particles)
     P, n1 = len(particles), N - 1
     data = np.zeros((P, n1, n1, P, n1, n1))
@@ -263,6 +273,7 @@ def check_case(case) -> Verdict:
             "degz:fills_class" if len(case["qz"]) - 1 == 2 * N - 3 else "degz:beyond_grid" if len(case["qz"]) + 1 > N else "degz:grid",
             "degp:fills_class" if len(case["qp"]) - 1 == max(2 * N - 5, 1) else "degp:inside",
             f"T0:1e{int(np.floor(np.log10(T0)))}", "grid:rescaled" if case.get("rescale_from") else "grid:direct",
+            "background:recycled-by-caller" if case.get("recycle_bg") else "background:untouched",
             "c0:zero" if tz[0] * tp[0] == 0 else "c0:nonzero",
             *{f"stat:{p['stat']}" for p in case["particles"]})
     cls = f"{fam} basis={case['basisM'][:4]}/{case['basisN'][:4]}"
